@@ -131,6 +131,19 @@ def probe(seed):
                     bad.append(["record.exception_type", fn.__name__, repr(exc), repr(msg), repr(et), type(raised).__name__])
                 if rec.message != msg and not (msg == "" and rec.message in (None, "")):
                     bad.append(["record.message", fn.__name__, repr(exc), repr(msg), repr(rec.message)])
+    # enumerating is a pure read: contracts added after an enumeration are reported by the next one
+    def kinds(fn): return sorted(type(r).__name__ for r in di.get_contracts(fn))
+    @deal.post(lambda r: r > 0)
+    def dbl(x): return x * 2
+    first = kinds(dbl); di.init_all(dbl)
+    dbl2 = deal.pre(lambda x: x != 13)(dbl)
+    if kinds(dbl2) != sorted(first + ["Pre"]): bad.append(["records after adding a contract", first, kinds(dbl2)])
+    @deal.has("stdout")
+    def greet(): return 1
+    m1 = [tuple(sorted(r.markers)) for r in di.get_contracts(greet) if isinstance(r, di.Has)]
+    greet2 = deal.has()(greet)
+    m2 = [tuple(sorted(r.markers)) for r in di.get_contracts(greet2) if isinstance(r, di.Has)]
+    if m1 != [("stdout",)] or m2 != [()]: bad.append(["has record after re-decoration", m1, m2])
     # pre-initialising inherited contracts changes no later outcome (the overriding method has other defaults / an extra parameter)
     for _ in range(20):
         d1, d2 = rnd.randint(5, 15), rnd.randint(50, 150)
